@@ -62,6 +62,7 @@ UNIT = Unit(
         Raw("impl<C: ContentAddrStore> Clone for UnsealedState<C> { #[verifier::external_body] fn clone(&self) -> (r: Self) ensures r == *self { unimplemented!() } }"),
         TypeItem("lib/melvm/src/lib.rs", "struct", "CovenantEnv"),
         Fn(C_, "get_coin", impl="CoinMapping", mode="assume", **cm_get_coin()),
+        Fn(DEP_TX, "is_well_formed", impl="Transaction", mode="assume", **tx_is_well_formed()),
         Fn(A, "extract_input_coins", home="C02", implicit_props=("C09", "C02"), **ap_extract_input_coins(),
            sig_subst=[("extract_input_coins<C: ContentAddrStore>", "extract_input_coins<'a, C: ContentAddrStore>"), ("transactions: &[Transaction]", "transactions: &'a [Transaction]")],
            rewrites=[("ANF", "collect", 0, 4, {})],
